@@ -9,7 +9,7 @@ CHECKS["C10"] = dict(
     quick=dict(shards=1, checks=5000, timeout=300),
     thorough=dict(shards=16, checks=40000, timeout=1500),
     assumptions=[
-        "float64->float32 narrowing of in-range inexact values may round or error (weakest reading, DESIGN C10)",
+        "float64->float32 narrowing: in-range inexact values may round (correctly) or error; a finite magnitude beyond MaxFloat32 must be an overflow error, also inside the window that a plain conversion would round down to MaxFloat32 (reading fixed in DESIGN 3/C10; the unchanged tree satisfies it)",
         "signalling float32 NaNs may be quieted by the float32->float64->float32 path of the decoder; NaN-ness is required, payload only for quiet NaNs",
     ],
 )
